@@ -527,3 +527,67 @@ impl Scenario for BindSwitchLimit {
         }
     }
 }
+
+/// A bind whose closure builds a fresh node every time, re-run several times under a limit that
+/// the graph never exceeds: heights must not creep (the graph's height is the same after every
+/// re-run), so every stabilise is accepted and the value is right.
+pub struct RebindWithinLimit {
+    pub reruns: usize,
+}
+
+impl Scenario for RebindWithinLimit {
+    fn name(&self) -> String {
+        "C19/rebind_within_limit".into()
+    }
+    fn run(&self) {
+        // var (1) -> chain of k maps (1 + k) -> bind: change node 2 + k, closure-built node 3 + k, main 4 + k
+        let k = choose(2);
+        let slack = choose(3);
+        let n = 4 + k + slack;
+        op_log(format!("new_with_height({n}); bind graph of height {} whose closure builds a fresh node; {} re-runs", 4 + k, self.reruns));
+        let mut keep = ManuallyDrop::new(Keep { state: IncrState::new_with_height(n), things: vec![] });
+        let r = catch(|| {
+            let st = keep.state.clone();
+            let mut x = fresh();
+            let v = st.var(x.clone());
+            let y = fresh();
+            let w = st.var(y.clone());
+            let (lhs, ev) = chain(&v.watch(), k, 0);
+            let ww = w.watch();
+            let b = lhs.bind(move |l: &SV| {
+                let l = l.clone();
+                ww.map(move |yv| app(91, &[l.clone(), yv.clone()]))
+            });
+            let o = b.observe();
+            for i in 0..=self.reruns {
+                if i > 0 {
+                    x = fresh();
+                    v.set(x.clone());
+                }
+                match catch(|| st.stabilise()) {
+                    Err(m) => {
+                        violation("C19/legal-height-rejected/after-bind-rerun", format!("limit {n}, graph height {}: stabilise #{} (after {i} re-runs of the closure at most): {m}", 4 + k, i + 1));
+                        break;
+                    }
+                    Ok(()) => {
+                        cover("bind-rerun-under-a-limit-the-graph-fits");
+                        if let Ok(val) = o.try_get_value() {
+                            let want = app(91, &[ev(&x), y.clone()]);
+                            let (v2, w2) = (val.clone(), want.clone());
+                            require("C19/value-at-height-limit", F::eq(&val, &want), move || format!("bind returned {v2:?}, expected {w2:?}"));
+                        }
+                    }
+                }
+            }
+            keep.things.push(Box::new((o, b, v, w)));
+        });
+        if let Err(msg) = r {
+            violation("C19/unexpected-panic", msg);
+            return;
+        }
+        let k = ManuallyDrop::into_inner(keep);
+        if let Err(msg) = catch(move || drop(k)) {
+            violation("C19/panic-while-dropping-after-limit-panic", msg);
+        }
+    }
+}
